@@ -1,8 +1,16 @@
 //! C06: time limiter.
 //! script = [cancel, dyn, n, T, t_0..t_{n-1}, (op a b)*]
-//!   cancel 1 = cancel_running_future(true); dyn 0 = timeout_duration(T ms), 1 = timeout_fn(i -> t_i ms)
-//!   op 1 Poll a | 2 Drop a | 3 Advance a ms |
-//!      4 Complete a b (0 ok, 1 err, 2 panic) | 5 Call a (build the future now)
+//!   cancel: bit 0 = cancel_running_future(true); bit 1 = the builder sets it BEFORE the timeout setter;
+//!           bits 2-3 = how the calls reach the service (harness only, the limiter keeps no state between calls):
+//!             0 every call on a fresh clone of one pristine service value
+//!             1 every call on the SAME service value (`svc.ready().call()` loop)
+//!             2 every call on a clone of the value the previous call was made on (clone of clone of ...)
+//!             3 two handles (the value and one clone made up front) used alternately
+//!   dyn:    bit 0: 0 = timeout_duration(T), 1 = timeout_fn(i -> t_i); bit 1 = the time unit of the whole script
+//!           (timeouts, Advance amounts) is the microsecond instead of the millisecond
+//!   a timeout >= 10^15 units stands for Duration::MAX
+//!   op 1 Poll a | 2 Drop a | 3 Advance a (ms unit: one millisecond at a time; us unit: one step) |
+//!      4 Complete a b (0 ok, 1 err, 2 panic) | 5 Call a (build the future now) | 6 Advance a in ONE step
 //! trace per event = [r, val, wake mask, inner-call states base 4]
 use std::future::Future;
 use std::pin::Pin;
@@ -14,11 +22,71 @@ use verif_harness::*;
 type Res = Result<i128, TimeLimiterError<i128>>;
 type Fut = Pin<Box<dyn Future<Output = Res>>>;
 
+/// poll_ready (GatedInner is always ready) + call on one service value
+fn call_on<S>(c: &mut S, req: i128) -> Fut
+where
+    S: Service<i128, Response = i128, Error = TimeLimiterError<i128>>,
+    S::Future: 'static,
+{
+    let w = futures::task::noop_waker();
+    let mut cx = std::task::Context::from_waker(&w);
+    let _ = c.poll_ready(&mut cx);
+    Box::pin(c.call(req)) as Fut
+}
+
+/// the four ways a call reaches the service
+fn maker<S>(svc: S, mode: i128) -> Box<dyn FnMut(i128) -> Fut>
+where
+    S: Service<i128, Response = i128, Error = TimeLimiterError<i128>> + Clone + 'static,
+    S::Future: 'static,
+{
+    match mode {
+        1 => {
+            let mut svc = svc;
+            Box::new(move |req| call_on(&mut svc, req))
+        }
+        2 => {
+            let mut cur = svc;
+            Box::new(move |req| {
+                let mut c = cur.clone();
+                let f = call_on(&mut c, req);
+                cur = c;
+                f
+            })
+        }
+        3 => {
+            let mut a = svc;
+            let mut b = a.clone();
+            let mut k = 0u32;
+            Box::new(move |req| {
+                k += 1;
+                if k % 2 == 1 { call_on(&mut a, req) } else { call_on(&mut b, req) }
+            })
+        }
+        _ => Box::new(move |req| {
+            let mut c = svc.clone();
+            call_on(&mut c, req)
+        }),
+    }
+}
+
+/// move both clocks by `d` in one step
+async fn jump(d: Duration) {
+    VIRT_NS.fetch_add(d.as_nanos() as u64, std::sync::atomic::Ordering::SeqCst);
+    tokio::time::advance(d).await;
+    settle().await;
+}
+
 fn run(s: &[i128]) -> Vec<i128> {
-    let cancel = zn(s, 0) % 2 != 0;
-    let cancel_first = zn(s, 0) >= 2;   // builder order: cancel_running_future before the timeout setter
-    fn ms(v: u64) -> Duration { if v >= 1_000_000_000_000_000 { Duration::MAX } else { Duration::from_millis(v) } }
-    let dynamic = zn(s, 1) != 0;
+    let h0 = zn(s, 0).max(0);
+    let cancel = h0 % 2 != 0;
+    let cancel_first = (h0 >> 1) & 1 != 0; // builder order: cancel_running_future before the timeout setter
+    let handle_mode = (h0 >> 2) & 3;
+    let h1 = zn(s, 1).max(0);
+    let dynamic = h1 % 2 != 0;
+    let us = (h1 >> 1) & 1 != 0;
+    let unit = move |v: u64| -> Duration { if us { Duration::from_micros(v) } else { Duration::from_millis(v) } };
+    let dur = move |v: u64| -> Duration { if v >= 1_000_000_000_000_000 { Duration::MAX } else { unit(v) } };
     let n = zn(s, 2).max(0) as usize;
     let fixed = zn(s, 3).max(0) as u64;
     let per: Vec<u64> = (0..n).map(|i| zn(s, 4 + i).max(0) as u64).collect();
@@ -26,52 +94,22 @@ fn run(s: &[i128]) -> Vec<i128> {
     rt.block_on(async move {
         let inner = GatedInner::new();
         let sh = inner.0.clone();
-        // one service value; every call goes through poll_ready + call on a clone of it
         let mut make: Box<dyn FnMut(i128) -> Fut> = if dynamic {
             let per = per.clone();
-            let f = move |req: &i128| ms(per[*req as usize]);
-            let svc = if cancel_first {
-                TimeLimiterLayer::builder()
-                    .cancel_running_future(cancel)
-                    .timeout_fn(f.clone())
-                    .build()
-                    .layer(inner)
+            let f = move |req: &i128| dur(per[*req as usize]);
+            let layer = if cancel_first {
+                TimeLimiterLayer::builder().cancel_running_future(cancel).timeout_fn(f).build()
             } else {
-                TimeLimiterLayer::builder()
-                    .timeout_fn(f)
-                    .cancel_running_future(cancel)
-                    .build()
-                    .layer(inner)
+                TimeLimiterLayer::builder().timeout_fn(f).cancel_running_future(cancel).build()
             };
-            Box::new(move |req| {
-                let mut c = svc.clone();
-                // GatedInner is always ready
-                let w = futures::task::noop_waker();
-                let mut cx = std::task::Context::from_waker(&w);
-                let _ = c.poll_ready(&mut cx);
-                Box::pin(c.call(req)) as Fut
-            })
+            maker(layer.layer(inner), handle_mode)
         } else {
-            let svc = if cancel_first {
-                TimeLimiterLayer::builder()
-                    .cancel_running_future(cancel)
-                    .timeout_duration(ms(fixed))
-                    .build()
-                    .layer(inner)
+            let layer = if cancel_first {
+                TimeLimiterLayer::builder().cancel_running_future(cancel).timeout_duration(dur(fixed)).build()
             } else {
-                TimeLimiterLayer::builder()
-                    .timeout_duration(ms(fixed))
-                    .cancel_running_future(cancel)
-                    .build()
-                    .layer(inner)
+                TimeLimiterLayer::builder().timeout_duration(dur(fixed)).cancel_running_future(cancel).build()
             };
-            Box::new(move |req| {
-                let mut c = svc.clone();
-                let w = futures::task::noop_waker();
-                let mut cx = std::task::Context::from_waker(&w);
-                let _ = c.poll_ready(&mut cx);
-                Box::pin(c.call(req)) as Fut
-            })
+            maker(layer.layer(inner), handle_mode)
         };
         let mut callers: Vec<Option<Manual<Res>>> = (0..n).map(|_| None).collect();
         let mut started = vec![false; n];
@@ -81,7 +119,7 @@ fn run(s: &[i128]) -> Vec<i128> {
             let (op, a, b) = (c[0], c[1], c[2]);
             let mut r: i128 = -1;
             let mut val: i128 = -1;
-            if op != 3 && (a < 0 || a as usize >= n) {
+            if op != 3 && op != 6 && (a < 0 || a as usize >= n) {
                 continue;
             }
             match op {
@@ -113,7 +151,8 @@ fn run(s: &[i128]) -> Vec<i128> {
                         m.flag.0.store(false, std::sync::atomic::Ordering::SeqCst);
                     }
                 }
-                3 => advance_ms(a.max(0) as u64).await,
+                3 if !us => advance_ms(a.max(0) as u64).await,
+                3 | 6 => jump(unit(a.clamp(0, 10_000_000_000_000) as u64)).await,
                 4 => {
                     sh.complete(a, 0, match b { 0 => Outcome::Ok(a), 1 => Outcome::Err(a), _ => Outcome::Panic });
                 }
